@@ -326,7 +326,8 @@ func mutate(rng *rand.Rand, b []byte) []byte {
 		return append(out[:i], out[i+1:]...)
 	case 2: // insert a structural byte
 		i := rng.Intn(len(out) + 1)
-		c := []byte("[]{}\",:\\0-e.nt \x00")[rng.Intn(17)]
+		alphabet := []byte("[]{}\",:\\0-e.nt \x00")
+		c := alphabet[rng.Intn(len(alphabet))]
 		return append(out[:i], append([]byte{c}, out[i:]...)...)
 	case 3: // replace a byte
 		out[rng.Intn(len(out))] = byte(rng.Intn(256))
